@@ -882,3 +882,271 @@ def run_optderef(chk, F, rid="R-OPTDEREF"):
                    (fn["q"], short(r)[:30]), "%s:%s" % (fn["file"], site.get("l")))
     if n < 4:
         raise AnalysisBroken("only %d optional dereferences found" % n)
+
+
+# ---------------------------------------------------------------------------------------------- R-FINDDEREF
+def reachable_from(F, CG, root_names, maxdepth=14):
+    """functions reachable from the named entry points through resolved calls (virtual calls: every override)"""
+    from .effects import reach
+    roots = [f for q in root_names for f in F.fns(q)]
+    if not roots:
+        raise AnalysisBroken("entry points %s not found" % (root_names,))
+    return {k[0] for k in reach(F, CG, roots, maxdepth=maxdepth)}
+
+
+PARSE_ENTRIES = ("parse_XML_buffer", "parse_XML_file", "parse_XML_fd", "parse_XTA", "parseProperty", "parse_property")
+WRITE_ENTRIES = ("write_XML_file",)
+
+
+def run_findderef(chk, F, CG, entries, rid="R-FINDDEREF"):
+    """`auto it = m.find(k); it->second` is undefined when the key is absent.  The library is built with NDEBUG, so an
+    assert() between the two is not a test (and would abort the process where C01 demands a diagnostic)."""
+    from ..inline import sites_with_conditions, strip
+    chk.rule(rid, "every use (->, *, passing on as a position) of an iterator obtained from find() is reached only on a "
+                  "path that has compared that iterator with end() and found it different (assert() does not count: the "
+                  "library is built with NDEBUG)")
+    n = 0
+    scope = reachable_from(F, CG, entries)
+    for fn in sorted(F.functions.values(), key=lambda f: (f.get("file") or "", f.get("line") or 0)):
+        fl = fn.get("file") or ""
+        if fn.get("body") is None or fl.startswith("/usr") or "/test/" in fl or fn["q"] not in scope:
+            continue
+        its = {}
+        for d in walk(fn["body"]):
+            if d.get("k") == "decl":
+                for v in d.get("vars", []):
+                    i0 = strip(v.get("init")) if v.get("init") is not None else None
+                    while isinstance(i0, dict) and i0.get("k") == "construct" and len(i0.get("args", [])) == 1:
+                        i0 = strip(i0["args"][0])
+                    if isinstance(i0, dict) and i0.get("k") == "call" and i0.get("name") == "find" and \
+                            "iterator" in (v.get("ct") or v.get("t") or "").lower() + (i0.get("t") or "").lower():
+                        its[v.get("id")] = v.get("name")
+            lhs = rhs = None
+            if d.get("k") == "bin" and d.get("op") == "=":
+                lhs, rhs = d["lhs"], d["rhs"]
+            elif d.get("k") == "call" and d.get("ck") == "op" and d.get("op") == "=" and d.get("recv") is not None and d.get("args"):
+                lhs, rhs = d["recv"], d["args"][0]
+            if lhs is not None and strip(lhs).get("k") == "ref" and strip(lhs).get("dk") == "local":
+                r0 = strip(rhs)
+                if isinstance(r0, dict) and r0.get("k") == "call" and r0.get("name") == "find":
+                    its[strip(lhs).get("id")] = strip(lhs).get("name")
+        if not its:
+            continue
+
+        def is_use(x):
+            if x.get("k") == "call" and x.get("ck") == "op" and x.get("op") in ("->", "*") and x.get("recv") is not None:
+                r = strip(x["recv"])
+                return isinstance(r, dict) and r.get("k") == "ref" and r.get("id") in its
+            if x.get("k") == "member" and x.get("arrow"):
+                b = strip(x.get("base") or {})
+                return b.get("k") == "ref" and b.get("id") in its
+            return False
+        for site, conds in sites_with_conditions(fn["body"], is_use):
+            r = strip(site.get("recv") if site.get("k") == "call" else site.get("base"))
+            iid = r.get("id")
+            ok = False
+            for c, t in conds:
+                for x in walk(c):
+                    sides, op = None, None
+                    if x.get("k") == "bin" and x.get("op") in ("==", "!="):
+                        sides, op = (x["lhs"], x["rhs"]), x["op"]
+                    elif x.get("k") == "call" and x.get("ck") == "op" and x.get("op") in ("==", "!="):
+                        a = ([x["recv"]] if x.get("recv") is not None else []) + list(x.get("args", []))
+                        sides, op = (tuple(a[:2]) if len(a) >= 2 else None), x["op"]
+                    if not sides:
+                        continue
+                    for p, q in (sides, sides[::-1]):
+                        p0 = strip(p)
+                        while isinstance(p0, dict) and p0.get("k") == "construct" and len(p0.get("args", [])) == 1:
+                            p0 = strip(p0["args"][0])
+                        if isinstance(p0, dict) and p0.get("k") == "ref" and p0.get("id") == iid and \
+                                any(y.get("k") == "call" and y.get("name") in ("end", "cend") for y in walk(q)):
+                            # only a top-level comparison (possibly under !) decides; inside && / || stay conservative
+                            c0, neg = strip(c), False
+                            while isinstance(c0, dict) and c0.get("k") == "un" and c0.get("op") == "!":
+                                c0, neg = strip(c0["e"]), not neg
+                            if c0 is x or (c0.get("k") == "bin" and c0.get("op") == "&&" and t != neg) or \
+                                    (c0.get("k") == "bin" and c0.get("op") == "||" and t == neg):
+                                if (op == "!=") == (t != neg):
+                                    ok = True
+            n += 1
+            chk.ob(rid, "%s|%s" % (fn["name"], its[iid]), ok,
+                   "%s uses the iterator `%s` returned by find() (%s) without having compared it with end(): for a key "
+                   "that is not in the container - e.g. the free parameter of a partial instance `Q(const int j) = P(j)`, "
+                   "which has no entry in instance_t::mapping - this reads through the end iterator" %
+                   (fn["q"], its[iid], short(site)[:40]), "%s:%s" % (fn["file"], site.get("l")),
+                   sample="%s: %s used after a comparison with end()" % (fn["name"], its[iid]))
+    chk.analysed[rid] = {"entry_points": list(entries), "functions_in_scope": len(scope), "iterator_uses": n}
+    if n < 1:
+        raise AnalysisBroken("no use of a find() iterator found below %s" % (entries,))
+
+
+# ---------------------------------------------------------------------------------------------- R-DATADEREF
+def run_dataderef(chk, F, CG, entries, rid="R-DATADEREF"):
+    """symbol_t::get_data() is the user pointer of a symbol: null for the empty symbol and for symbols without user data.
+    Below the given entry points, `static_cast<T*>(sym.get_data())->field` needs a test first."""
+    from ..inline import sites_with_conditions, strip
+    chk.rule(rid, "below %s: a pointer obtained from symbol_t::get_data() is dereferenced only after a test of that "
+                  "pointer or of the symbol (`sym != symbol_t()`)" % ", ".join(entries))
+    scope = reachable_from(F, CG, entries)
+    n = 0
+    for fn in sorted(F.functions.values(), key=lambda f: (f.get("file") or "", f.get("line") or 0)):
+        if fn.get("body") is None or fn["q"] not in scope or (fn.get("file") or "").startswith("/usr"):
+            continue
+        ptrs = {}
+        for d in walk(fn["body"]):
+            if d.get("k") == "decl":
+                for v in d.get("vars", []):
+                    if v.get("init") is not None and "*" in (v.get("t") or "") and any(
+                            c.get("name") == "get_data" and c.get("cls") == "UTAP::symbol_t" for c in calls(v["init"])):
+                        ptrs[v.get("id")] = v
+
+        def src(x):
+            if x.get("k") != "member" or not x.get("arrow"):
+                return None
+            b = strip(x.get("base") or {})
+            if b.get("k") == "ref" and b.get("id") in ptrs:
+                return short(b), [c for c in calls(ptrs[b["id"]]["init"]) if c.get("name") == "get_data"][0]
+            gd = [c for c in calls(b) if c.get("name") == "get_data" and c.get("cls") == "UTAP::symbol_t"]
+            if gd and b.get("k") in ("cast", "call"):
+                return short(b), gd[0]
+            return None
+        for site, conds in sites_with_conditions(fn["body"], lambda x: src(x) is not None):
+            ptxt, gd = src(site)
+            sym = short(gd.get("recv"))
+            ok = False
+            for c, t in conds:
+                c0, neg = strip(c), False
+                while isinstance(c0, dict) and c0.get("k") == "un" and c0.get("op") == "!":
+                    c0, neg = strip(c0["e"]), not neg
+                txt = short(c0)
+                if (txt == ptxt or txt == sym + ".get_data()") and t != neg:
+                    ok = True
+                if sym in txt and "symbol_t{" in txt.replace(" ", "") and (("!=" in txt) == (t != neg)):
+                    ok = True
+                if ptxt in txt and "nullptr" in txt and (("!=" in txt) == (t != neg)):
+                    ok = True
+            n += 1
+            chk.ob(rid, "%s|%s" % (fn["name"], sym), ok,
+                   "%s dereferences the user data of `%s` (%s) without a test: the symbol is empty when nothing was "
+                   "declared for it - e.g. templ.init for `process P() { }`, which the grammar accepts - and get_data() "
+                   "of it is a null pointer" % (fn["q"], sym, short(site)[:50]), "%s:%s" % (fn["file"], site.get("l")))
+    chk.analysed[rid] = {"entry_points": list(entries), "functions_in_scope": len(scope), "dereferences": n}
+    if n < 1:
+        raise AnalysisBroken("no get_data() dereference found below %s" % (entries,))
+
+
+# ---------------------------------------------------------------------------------------------- R-NULLMEMBER
+# (class, method, member) -> (why the member is not null there, the method that sets it around the call)
+NULLMEMBER_EXEMPT = {
+    ("TypeChecker", "visitReturnStatement", "function"):
+        ("statement visit methods run only inside fun.body->accept(this) of TypeChecker::visitFunction, which sets "
+         "`function` before and clears it after", "visitFunction"),
+}
+
+
+def run_nullmember(chk, F, classes, rid="R-NULLMEMBER"):
+    """A pointer data member that some method of its class sets to nullptr (`temp = nullptr` when the type checker
+    leaves a template) is null part of the time.  Every method that follows it must test it first."""
+    from ..inline import sites_with_conditions, strip
+    chk.rule(rid, "for the classes %s: a pointer member that a method of the class assigns nullptr is followed (`m->x`) "
+                  "only on a path that has tested it" % ", ".join(c.split("::")[-1] for c in classes))
+    n = 0
+    for cls in classes:
+        rec = F.record(cls)
+        ptr_members = {f["name"] for f in rec["fields"] if (f.get("ct") or f.get("t") or "").rstrip().endswith("*")}
+        nulled = set()
+        methods = [fn for fn in F.functions.values() if fn.get("cls") == cls and fn.get("body") is not None]
+        for fn in methods:
+            for x in walk(fn["body"]):
+                if x.get("k") == "bin" and x.get("op") == "=" and strip(x["lhs"]).get("k") == "member" and \
+                        strip(x["lhs"]).get("name") in ptr_members and strip(x["rhs"]).get("k") == "null":
+                    nulled.add(strip(x["lhs"])["name"])
+        for fn in methods:
+            def site(x):
+                b = None
+                if x.get("k") == "member" and x.get("arrow"):
+                    b = strip(x.get("base") or {})
+                elif x.get("k") == "call" and x.get("arrow") and x.get("recv") is not None:
+                    b = strip(x["recv"])
+                return isinstance(b, dict) and b.get("k") == "member" and b.get("name") in nulled and b.get("of") == cls
+            for s_, conds in sites_with_conditions(fn["body"], site):
+                b = strip(s_.get("base") if s_.get("k") == "member" else s_.get("recv"))
+                m = b["name"]
+                ok = False
+                for c, t in conds:
+                    c0, neg = strip(c), False
+                    while isinstance(c0, dict) and c0.get("k") == "un" and c0.get("op") == "!":
+                        c0, neg = strip(c0["e"]), not neg
+                    txt = short(c0).replace("this->", "")
+                    if txt == m and t != neg:
+                        ok = True
+                    if isinstance(c0, dict) and c0.get("k") == "bin" and c0.get("op") in ("==", "!=") and m in txt and \
+                            "nullptr" in txt and ((c0["op"] == "!=") == (t != neg)):
+                        ok = True
+                    if isinstance(c0, dict) and c0.get("k") == "bin" and c0.get("op") == "&&" and t != neg and \
+                            any(short(strip(z)).replace("this->", "") == m for z in (c0["lhs"], c0["rhs"])):
+                        ok = True
+                    if isinstance(c0, dict) and c0.get("k") == "bin" and c0.get("op") == "||" and t == neg:
+                        for z in (c0["lhs"], c0["rhs"]):
+                            z0 = strip(z)
+                            if z0.get("k") == "un" and z0.get("op") == "!" and short(strip(z0["e"])).replace("this->", "") == m:
+                                ok = True
+                # the method that has just assigned a non-null value may follow it
+                assigned = any(x.get("k") == "bin" and x.get("op") == "=" and strip(x["lhs"]).get("name") == m and
+                               strip(x["rhs"]).get("k") != "null" and (x.get("l") or 0) <= (s_.get("l") or 0)
+                               for x in walk(fn["body"]))
+                n += 1
+                key = (cls.split("::")[-1], fn["name"], m)
+                if not (ok or assigned) and key in NULLMEMBER_EXEMPT:
+                    why, setter = NULLMEMBER_EXEMPT[key]
+                    sf = F.fn(cls + "::" + setter)
+                    sets = [x for x in walk(sf["body"]) if x.get("k") == "bin" and x.get("op") == "=" and
+                            strip(x["lhs"]).get("name") == m and strip(x["rhs"]).get("k") != "null"]
+                    acc = [c for c in calls(sf["body"], "accept")]
+                    held = bool(sets) and bool(acc) and min(x.get("l") or 0 for x in sets) < min(c.get("l") or 0 for c in acc)
+                    chk.ob(rid, "%s::%s|%s|listed" % key, held,
+                           "%s is listed as running only inside %s, which was to set `%s` before visiting the body - it "
+                           "no longer does" % (fn["q"], setter, m), "%s:%s" % (sf["file"], sf["line"]),
+                           sample="%s: %s - listed: %s" % (fn["name"], m, why[:60]))
+                    continue
+                chk.ob(rid, "%s::%s|%s" % (cls.split("::")[-1], fn["name"], m), ok or assigned,
+                       "%s follows the member pointer `%s` (%s) without a test, but %s sets it to nullptr at times: e.g. "
+                       "TypeChecker::temp is null while global declarations are checked, so `exit()` in a global function "
+                       "dereferences a null pointer" % (fn["q"], m, short(s_)[:40], cls.split("::")[-1]),
+                       "%s:%s" % (fn["file"], s_.get("l")))
+    chk.analysed[rid] = {"classes": list(classes), "dereferences": n}
+    if n < 1:
+        raise AnalysisBroken("no dereference of a nullable member pointer found in %s" % (classes,))
+
+
+# ---------------------------------------------------------------------------------------------- R-CHILDGUARD
+def run_childguard(chk, F, CG, entries, rid="R-CHILDGUARD"):
+    """Outside the kind-dispatching members of expression_t (R-FIXEDIDX), `e.get(k)` assumes that e has children: the
+    writer's declaration printer took `.get(0)` of an array size's upper bound to recover `n` from `n - 1` - but the
+    size of `int y[T]` is a type name, whose upper bound is whatever the typedef says."""
+    from ..inline import sites_with_conditions, strip
+    chk.rule(rid, "below %s, outside expression_t's own members: a child access with a literal index on an expression is "
+                  "reached only after a test of that expression's kind or size" % ", ".join(entries))
+    scope = reachable_from(F, CG, entries)
+    n = 0
+    for fn in sorted(F.functions.values(), key=lambda f: (f.get("file") or "", f.get("line") or 0)):
+        if fn.get("body") is None or fn["q"] not in scope or (fn.get("file") or "").startswith("/usr") or \
+                fn.get("cls") == "UTAP::expression_t":
+            continue
+        for site, conds in sites_with_conditions(
+                fn["body"], lambda x: x.get("k") == "call" and x.get("cls") == "UTAP::expression_t" and
+                (x.get("name") == "get" or (x.get("ck") == "op" and x.get("op") == "[]")) and x.get("args") and
+                strip(x["args"][-1]).get("k") == "int"):
+            recv = site.get("recv") if site.get("recv") is not None else site["args"][0]
+            r = short(recv)
+            ok = any((r + ".get_kind()") in short(c) or (r + ".get_size()") in short(c) for c, _ in conds)
+            n += 1
+            chk.ob(rid, "%s|%s" % (fn["name"], r[:50]), ok,
+                   "%s takes child %s of `%s` without having looked at its kind or size: for `int y[T]` with a typedef T "
+                   "the upper bound of the size is not `n - 1` but a constant without children, and get(0) of it is out "
+                   "of range (write_XML_file crashes on the accepted model)" %
+                   (fn["q"], short(site["args"][-1]), r[:60]), "%s:%s" % (fn["file"], site.get("l")))
+    chk.analysed[rid] = {"entry_points": list(entries), "sites": n}
+    if n < 1:
+        raise AnalysisBroken("no literal child access found below %s" % (entries,))
